@@ -22,7 +22,7 @@ from ..common import rng_for, digest
 from ..impl import runner as R
 
 PARAMS = [(8, 32), (16, 64), (5, 12), (32, 128), (13, 50), (4, 4), (1, 10), (64, 256)]
-NAMES = ['a', 'b.bin', 'ünï', 'dir with space', '-dash', 'x.tmp', 'new\nline', 'z' * 40, '日本', b'\xff\xfe'.decode('utf-8', 'surrogateescape'), 'c', 'd', 'e0', 'e1']
+NAMES = ['a', 'a.bak', 'b.bin', 'b.bin.old', 'ünï', 'dir with space', '-dash', 'x.tmp', 'new\nline', 'z' * 40, '日本', b'\xff\xfe'.decode('utf-8', 'surrogateescape'), 'c', 'd', 'e0', 'e1']
 
 
 def gen_config(r):
@@ -48,7 +48,7 @@ def gen_tree(r, cfg, only_empty=False):
     n = r.choice([0, 1, 1, 2, 3, 4, 6, 9])
     files = {}
     pool = [r.randbytes(6 * mx + 40), bytes(6 * mx + 40), (r.randbytes(r.choice([1, 4, 7])) * (6 * mx + 40))[:6 * mx + 40]]
-    dirs = ['', '', 'sub', 'sub/deep', 'other']
+    dirs = ['', '', 'sub', 'sub/deep', 'other', 'sub-old', 'sub-old']
     names = list(NAMES)
     r.shuffle(names)
     for k in range(n):
@@ -153,6 +153,13 @@ def run_case(arg):
             args = [src / x for x in r.sample(rels, min(len(rels), r.choice([1, 2, 3])))]
             if r.random() < 0.5 and args:
                 args.append(args[0])
+        # sibling arguments whose names share a prefix (photos / photos-2021, notes.txt / notes.txt.bak)
+        if r.random() < 0.3:
+            sib = [src / x for x in ('sub', 'sub-old') if (src / x).is_dir()]
+            sib += [src / x for x in rels if any(y != x and y.startswith(x) and os.path.dirname(y) == os.path.dirname(x) for y in rels)]
+            sib += [src / y for y in rels if any(y != x and y.startswith(x) and os.path.dirname(y) == os.path.dirname(x) for x in rels)]
+            if len(sib) >= 2:
+                args = sib if r.random() < 0.6 else args + sib
         r.shuffle(args)
         exp = expected_records([str(a) for a in args])
         backend = R.AsyncMemBackend() if cfg['async_backend'] else R.MemBackend()
